@@ -657,30 +657,129 @@ fn run_exhaustive(case: &Value) -> Value {
 
 /// C38: the real byte-slice driver (as in `CompiledSim::fuzz_repro`) replays `bytes` on a hook
 /// list over several rounds; the full observable log is returned. Run `reps` times in-process.
+/// forwards every request to bolero's real byte-slice driver and records the values it
+/// returned, so that the model can be replayed on exactly the decisions the real driver made
+struct Recording {
+    inner: Object<bolero::bolero_engine::driver::bytes::Driver<Vec<u8>>>,
+    st: Rc<RefCell<St>>,
+}
+
+impl Recording {
+    fn note(&self, v: Option<u64>) {
+        let mut st = self.st.borrow_mut();
+        match v {
+            Some(v) => {
+                st.pos += 1;
+                st.used.push(v);
+            }
+            None => st.bad = true,
+        }
+    }
+}
+
+macro_rules! fwd_int {
+    ($name:ident, $ty:ty) => {
+        fn $name(&mut self, min: Bound<&$ty>, max: Bound<&$ty>) -> Option<$ty> {
+            let r = self.inner.$name(min, max);
+            self.note(r.map(|v| v as u64));
+            r
+        }
+    };
+}
+
+impl DynDriver for Recording {
+    fn depth(&self) -> usize {
+        DynDriver::depth(&self.inner)
+    }
+    fn set_depth(&mut self, depth: usize) {
+        DynDriver::set_depth(&mut self.inner, depth)
+    }
+    fn max_depth(&self) -> usize {
+        DynDriver::max_depth(&self.inner)
+    }
+    fn gen_variant(&mut self, variants: usize, base_case: usize) -> Option<usize> {
+        let r = DynDriver::gen_variant(&mut self.inner, variants, base_case);
+        self.note(r.map(|v| v as u64));
+        r
+    }
+    fwd_int!(gen_u8, u8);
+    fwd_int!(gen_i8, i8);
+    fwd_int!(gen_u16, u16);
+    fwd_int!(gen_i16, i16);
+    fwd_int!(gen_u32, u32);
+    fwd_int!(gen_i32, i32);
+    fwd_int!(gen_u64, u64);
+    fwd_int!(gen_i64, i64);
+    fwd_int!(gen_u128, u128);
+    fwd_int!(gen_i128, i128);
+    fwd_int!(gen_usize, usize);
+    fwd_int!(gen_isize, isize);
+    fn gen_f32(&mut self, a: Bound<&f32>, b: Bound<&f32>) -> Option<f32> {
+        DynDriver::gen_f32(&mut self.inner, a, b)
+    }
+    fn gen_f64(&mut self, a: Bound<&f64>, b: Bound<&f64>) -> Option<f64> {
+        DynDriver::gen_f64(&mut self.inner, a, b)
+    }
+    fn gen_char(&mut self, a: Bound<&char>, b: Bound<&char>) -> Option<char> {
+        DynDriver::gen_char(&mut self.inner, a, b)
+    }
+    fn gen_bool(&mut self, probability: Option<f32>) -> Option<bool> {
+        let r = DynDriver::gen_bool(&mut self.inner, probability);
+        self.note(r.map(|v| v as u64));
+        r
+    }
+    fn gen_from_bytes(
+        &mut self,
+        hint: &mut dyn FnMut() -> (usize, Option<usize>),
+        produce: &mut dyn FnMut(&[u8]) -> Option<usize>,
+    ) -> Option<()> {
+        DynDriver::gen_from_bytes(&mut self.inner, hint, produce)
+    }
+}
+
 fn run_bytes_once(case: &Value) -> Value {
     use bolero::bolero_engine::driver::bytes::Driver as BytesDriver;
     let bytes: Vec<u8> = u64s(&case["bytes"]).into_iter().map(|b| b as u8).collect();
     let mut t = build_tick(&case["hooks"]);
     let rounds_in = case["rounds"].as_array().unwrap().clone();
     let mut rounds = vec![];
-    let drv = Box::new(Object(BytesDriver::new(bytes, &Default::default())));
+    let st = Rc::new(RefCell::new(St::default()));
+    let drv = Box::new(Recording { inner: Object(BytesDriver::new(bytes, &Default::default())), st: st.clone() });
     let res = catch_unwind(AssertUnwindSafe(|| {
         scope::with(drv, || {
             for r in &rounds_in {
                 tick_push(&t, r);
-                let order: Vec<Value> = t.obs.iter().map(snapshot).collect();
-                if !verif_can_run(&t.hooks) {
-                    rounds.push(json!({"skipped": true, "before": order}));
-                    continue;
-                }
+                let before: Vec<Value> = t.obs.iter().map(snapshot).collect();
+                let can_run = verif_can_run(&t.hooks);
+                let info: Vec<Value> = t
+                    .hooks
+                    .iter()
+                    .map(|h| json!([cur(&**h), h.can_make_nontrivial_decision(), h.is_ready()]))
+                    .collect();
+                let start = st.borrow().used.len();
+                st.borrow_mut().bad = false;
                 let mut log = String::new();
                 let r = catch_unwind(AssertUnwindSafe(|| verif_run_hooks_logged(&mut log, &mut t.hooks)));
                 let em: Vec<Value> = t.obs.iter_mut().map(emitted).collect();
                 let after: Vec<Value> = t.obs.iter().map(snapshot).collect();
+                let ds_used: Vec<u64> = st.borrow().used[start..].to_vec();
                 match r {
-                    Ok(()) => rounds.push(json!({"before": order, "emitted": em, "after": after, "log": log})),
+                    Ok(()) => rounds.push(json!({
+                        "before": before, "can_run": can_run, "info": info, "emitted": em, "after": after,
+                        "used": ds_used.len(), "ds_used": ds_used, "log": log,
+                    })),
                     Err(e) => {
-                        rounds.push(json!({"before": order, "panic": panic_message(e), "emitted": em, "after": after, "log": log}));
+                        let bad = st.borrow().bad;
+                        let mut v = panic_value(e, bad);
+                        v["before"] = json!(before);
+                        v["can_run"] = json!(can_run);
+                        v["info"] = json!(info);
+                        v["emitted"] = json!(em);
+                        v["after"] = json!(after);
+                        v["used"] = json!(ds_used.len());
+                        v["ds_used"] = json!(ds_used);
+                        v["log"] = json!(log);
+                        rounds.push(v);
                         break;
                     }
                 }
